@@ -4,7 +4,7 @@ TEXTS = {
     "C01": {
         "text": "Lean 4 theorem C01_format: for every well-formed UTF-8 input, configuration, parser behaviour and every wrapper behaviour "
                 "satisfying the frame contract, the formatter returns an output and it has the same non-blank characters in the same order as the input up to ASCII "
-                "case; proved through exact models of lexer, content rules, pipeline glue and reconstructor (for every counter "
+                "case (case_changes_confined: a letter changes case only inside a parser-typed keyword, lower-cased as a whole, or inside the name span of a compiler directive; every other rule changes blanks only, exactly); proved through exact models of lexer, content rules, pipeline glue and reconstructor (for every counter "
                 "assignment). Model tied to the code by per-stage differential execution; contract clauses evaluated on every case.",
         "design_ref": "DESIGN.md section 5 (C01)",
         "note": "Assumes (checked per case by the driver): WrapFrame (wrapper changes only blanks inside contents and keeps the token "
